@@ -24,6 +24,7 @@ DRY = "src/linters/dry/linter.py"
 ST = "src/linters/stringly_typed/linter.py"
 IGN = "src/linter_config/ignore.py"
 FP = "src/linters/file_placement/linter.py"
+CM = "src/linters/dry/constant_matcher.py"
 FINGERPRINTS = [
     (CORE, ["lint_file", "lint_files", "lint_directory", "_execute_rules", "_safe_check_rule", "_get_rules_for_file",
             "_collect_files_fast", "_collect_files_from_walk", "_is_hardcoded_excluded", "_should_include_dir", "FileLintContext"]),
@@ -34,6 +35,8 @@ FINGERPRINTS = [
     ("src/linters/dry/cache_query.py", ["CacheQueryService"]),
     ("src/linters/dry/inline_ignore.py", ["InlineIgnoreParser"]),
     ("src/linters/dry/constant_violation_builder.py", ["_format_locations_text", "_get_other_locations", "_format_message"]),
+    (CM, ["UnionFind", "find_constant_groups", "_merge_fuzzy_groups", "_is_fuzzy_match", "_group_by_exact_name", "_union_matching_pairs",
+          "_build_merged_groups"]),
     (ST, ["StringlyTypedRule"]),
     ("src/linters/stringly_typed/storage.py", ["StringlyTypedStorage"]),
     (IGN, ["IgnoreDirectiveParser", "get_ignore_parser", "_load_repo_ignores"]),
@@ -396,6 +399,62 @@ def const_refs():
     return defn("dry_const_refs_sorted", "bool", "true" if sorted_refs else "false")
 
 
+# the fuzzy grouping of constant names, statement by statement (ast.unparse of each body without its docstring); H_DIR is the one
+# hole: which root is attached under which.  Any other change of shape fails closed (Model/OrchConsts.v transcribes exactly this)
+CM_TEMPLATES = {
+    ("UnionFind", "__init__"): ["self._parent = {item: item for item in items}"],
+    ("UnionFind", "find"): ["if self._parent[x] != x:\n    self._parent[x] = self.find(self._parent[x])", "return self._parent[x]"],
+    ("UnionFind", "union"): ["px, py = (self.find(x), self.find(y))", "H_DIR"],
+    (None, "find_constant_groups"): ["if not constants:\n    return []", "locations = _build_locations(constants)",
+                                     "exact_groups = _group_by_exact_name(locations)", "return _merge_fuzzy_groups(exact_groups)"],
+    (None, "_merge_fuzzy_groups"): ["names = list(groups.keys())", "uf = UnionFind(names)", "_union_matching_pairs(names, uf, _is_fuzzy_match)",
+                                    "return _build_merged_groups(names, groups, uf)"],
+    (None, "_is_fuzzy_match"): ["if name1 == name2:\n    return True", "return _is_fuzzy_similar(name1, name2)"],
+    (None, "_group_by_exact_name"): ["groups: dict[str, ConstantGroup] = {}",
+                                     "for loc in locations:\n    if loc.name not in groups:\n        groups[loc.name] = ConstantGroup(canonical_name=loc.name, "
+                                     "locations=[], all_names=set(), is_fuzzy_match=False)\n    groups[loc.name].add_location(loc)", "return groups"],
+    (None, "_union_matching_pairs"): ["for name1, name2 in combinations(names, 2):\n    if is_match(name1, name2):\n        uf.union(name1, name2)"],
+    (None, "_build_merged_groups"): ["merged: dict[str, ConstantGroup] = {}",
+                                     "for name in names:\n    root = uf.find(name)\n    if root not in merged:\n        merged[root] = ConstantGroup(canonical_name=root, "
+                                     "locations=[], all_names=set(), is_fuzzy_match=False)\n    for loc in groups[name].locations:\n        merged[root].add_location(loc)\n"
+                                     "    if name != root:\n        merged[root].is_fuzzy_match = True", "return list(merged.values())"],
+}
+CM_DIRS = {"if px != py:\n    self._parent[px] = py": True, "if px != py:\n    self._parent[py] = px": False}
+
+
+def const_grouping():
+    """find_constant_groups: exact groups by name, then every pair of names (itertools.combinations, list order) that matches is
+    united in a union-find whose find() returns the root; groups are keyed by root in order of first appearance.  Emits the
+    direction of union (first root attached under the second) and the edit-distance bound; everything else is shape-checked."""
+    mod = parse(CM)
+    direction = None
+    for (cls, fname), want in CM_TEMPLATES.items():
+        scope = find_class(mod, cls) if cls else mod
+        got = [ast.unparse(st) for st in _body(find_func(scope, fname))]
+        if len(got) != len(want):
+            raise Unsupported(f"{fname}: {len(got)} statements, expected {len(want)}")
+        for g, w in zip(got, want):
+            if w == "H_DIR":
+                if g not in CM_DIRS:
+                    raise Unsupported(f"UnionFind.union: unexpected attachment {g!r}")
+                direction = CM_DIRS[g]
+            elif g != w:
+                raise Unsupported(f"{fname}: statement changed shape: {g[:120]!r}")
+    imports = [ast.unparse(n) for n in mod.body if isinstance(n, ast.ImportFrom) and n.module == "itertools"]
+    if imports != ["from itertools import combinations"]:
+        raise Unsupported("constant_matcher: `combinations` is not itertools.combinations")
+    from translator.lib import find_assign
+    med = find_assign(mod, "MAX_EDIT_DISTANCE")
+    if not (isinstance(med, ast.Constant) and isinstance(med.value, int) and not isinstance(med.value, bool) and med.value >= 0):
+        raise Unsupported("MAX_EDIT_DISTANCE is not a natural-number literal")
+    lin = ast.unparse(find_func(parse(DRY), "_generate_constant_violations"))
+    if "groups = find_constant_groups(constants)" not in lin:
+        raise Unsupported("_generate_constant_violations: grouping call changed")
+    return (defn("uf_first_root_under_second", "bool", "true" if direction else "false")
+            + defn("uf_pairs_source", "string", coq_string("combinations(names, 2)"))
+            + defn("const_max_edit_distance", "nat", str(med.value)))
+
+
 def package_rule_ids():
     """per package of src/linters: the rule ids its code can put on a violation, as far as they are literals
     (`rule_id` property returning a literal, `rule_id="..."` keyword arguments)"""
@@ -434,5 +493,6 @@ ITEMS = [
     ("cache_keys", cache_keys),
     ("dry_sql", dry_sql),
     ("dry_const_refs", const_refs),
+    ("const_grouping", const_grouping),
     ("package_rule_ids", package_rule_ids),
 ]
